@@ -16,6 +16,7 @@ pub mod c32;
 pub mod c33;
 pub mod c40;
 pub mod c47;
+pub mod c48;
 pub mod c52;
 
 #[derive(Clone, Copy, Debug, PartialEq, Eq)]
@@ -112,6 +113,7 @@ pub fn make(id: &str) -> Option<Box<dyn Check>> {
         "C33" => Some(Box::new(c33::C33::new())),
         "C40" => Some(Box::new(c40::C40::new())),
         "C47" => Some(Box::new(c47::C47::new())),
+        "C48" => Some(Box::new(c48::C48::new())),
         "C52" => Some(Box::new(c52::C52::new())),
         _ => None,
     }
